@@ -26,6 +26,18 @@ of the values actually passed); the added series / signals are one object per se
 add_signal must reject a menu of close and coarse mismatched time steps (1e-7 relative ... a factor of six; both orders)
 and accept an equal step written as numpy.float64; objects that held another record before (processed, lazy properties
 read, auxiliary statistics generated, then reset_values) must behave like fresh ones; A-B-A call patterns.
+
+Round 4:
+* 'seq'   (engine G)  one (cross-over frequency, order, Gibbs option): A-B-A sequences over OPTION TUPLES that agree in part of
+          their arguments - low-pass and high-pass at the same frequency, band-passes that have that frequency as their upper /
+          lower edge, the same cut-off on a record with twice the time step, another cut-off with the same cut-off / Nyquist
+          ratio, a cut-off 0.2 % higher - every unordered pair {A, B} as the calls A, B, A on fresh objects (each call against the analytic gain of ITS
+          OWN setting, first and third result bit for bit equal), and every ordered pair with a common time step as two calls
+          on the SAME object (gain = product of the two analytic gains).
+* 'edge'  (engine G)  cut-offs next to the ends of the admissible interval 0 < f < Nyquist (0.008, 0.004 and 0.001 of the
+          Nyquist frequency away from either end; low-, high- and band-pass), records long enough for the slowest filter
+          transient to have died out on the middle third, sinusoids on both sides of the extreme cut-off(s).
+* 'len'   also with gibbs_extra = 0 and 2 (documented int, default 1; 0 is inside its domain): length, dt, additivity.
 """
 import math
 from fractions import Fraction
@@ -80,6 +92,20 @@ VARIANT_MAX_LEN = 4        # container / scale / history / dt-menu handling is n
 DT_PAIRS = ((0.1, 0.10000001), (0.1, 0.1000001), (1.0, 1.0000001), (0.01, 0.01004), (0.005, 0.00501), (0.5, 0.4),
             (0.4, 0.45), (0.25, 0.26), (2.0, 5.0), (10.0, 60.0))
 
+# ---- call sequences over option tuples (kind 'seq'): cross-over frequencies [Hz]; sinusoid frequency / cut-off of the setting
+CROSS = (10.0, 16.0)
+SEQ_REL = (0.5, 0.8, 1.25, 2.0)
+# ---- cut-offs next to the ends of the admissible interval (kind 'edge'): (distance e from the end as a fraction of the Nyquist
+#      frequency, time step); record length 65.536/e samples (a power of two), so the extreme cut-off always lies 32.768 frequency
+#      bins away from 0 / from the Nyquist bin and the slowest pole of the order-4 filter decays by exp(-26) over the outer
+#      thirds; sinusoids: EDGE_BINS bins away from that end (0.5, 0.8, 1.25, 2 times the cut-off's distance) and bin N/4
+EDGE = ((0.008, 0.01), (0.004, 0.02), (0.001, 0.005))
+EDGE_BINS = (16, 26, 41, 66)
+EDGE_KINDS = ('low, cut-off near 0', 'high, cut-off near 0', 'band, lower cut-off near 0', 'low, cut-off near Nyquist',
+              'high, cut-off near Nyquist', 'band, upper cut-off near Nyquist', 'band, cut-offs near 0 and near Nyquist')
+EDGE_PHASE = 1
+GIBBS_EXTRA = (0, 2)       # besides the default 1
+
 GAIN_TOL = 1e-6            # unit-amplitude input, absolute
 GAIN_TOL_NARROW = 1e-3     # band-pass with f2/f1 <= 4 at orders 3-4 (transfer-function form ill-conditioned)
 
@@ -103,10 +129,15 @@ def build(tier, seed):
         heavy.append(dict(s, kind='gain'))
         heavy.append(dict(s, kind='lin'))
     lens = [{'kind': 'len', 'order': order, 'gibbs': gibbs} for order in ORDERS for gibbs in GIBBS]
+    seqs = [{'kind': 'seq', 'cross': fc, 'order': order, 'gibbs': gibbs} for fc in CROSS for order in ORDERS for gibbs in GIBBS]
+    edges = [{'kind': 'edge', 'edge': list(ed), 'setting': kind, 'order': order}
+             for ed in EDGE for kind in EDGE_KINDS for order in ORDERS]
     # deterministic interleave (order inside each kind is canonical, simplest first)
     keyed = [((i + 0.5) / len(wcases), 0, i, c) for i, c in enumerate(wcases)]
     keyed += [((j + 0.5) / len(heavy), 1, j, c) for j, c in enumerate(heavy)]
     keyed += [((j + 0.5) / len(lens), 2, j, c) for j, c in enumerate(lens)]
+    keyed += [((j + 0.5) / len(seqs), 3, j, c) for j, c in enumerate(seqs)]
+    keyed += [((j + 0.5) / len(edges), 4, j, c) for j, c in enumerate(edges)]
     keyed.sort(key=lambda t: t[:3])
     cases = [t[3] for t in keyed]
     return {
@@ -125,17 +156,32 @@ def build(tier, seed):
                 "dt preserved, additivity, homogeneity; words of length <= %d also as %s (detrend object/array, add_*, running "
                 "average), with add_series(tuple / int64 / int8 ndarray), equal dt given as numpy.float64, the mismatched "
                 "time-step pairs %s in both orders, objects with a history (another record of a different length processed "
-                "and read, then reset_values) and A-B-A call patterns.  non-trivial = non-zero word, or (setting, sinusoid) "
-                "with analytic gain in (1e-3, 1-1e-3), or impulse pair with i != j, or (setting, length) of the sweep"
+                "and read, then reset_values) and A-B-A call patterns; kind 'seq': cross-over frequency fc in %s x order x "
+                "remove_gibbs (one pool case each) x every unordered pair {A, B} of the seven settings [low-pass (None, fc); high-pass "
+                "(fc, None); band-pass (fc/5, fc); band-pass (fc, min(4.5 fc, 45)); low-pass (None, fc) on a record with 2 dt; "
+                "high-pass (fc/2, None) on a record with 2 dt; low-pass (None, 1.002 fc)] x sinusoid at %s times the cut-off of A: calls A, B, A on fresh "
+                "Signals (N=%d), each against its own analytic gain, first and third bit for bit; and every ordered pair with a "
+                "common dt as two calls on one Signal (gain product); kind 'edge': (distance e of the extreme cut-off from 0 / "
+                "from Nyquist as a fraction of Nyquist, dt) in %s x setting in %s x order (one pool case each) x remove_gibbs x "
+                "sinusoids %s bins from that end and bin N/4, N = 65.536/e, phase %s; kind 'len' also with gibbs_extra in %s "
+                "(length, dt, additivity).  non-trivial = non-zero word, or (setting, sinusoid) "
+                "with analytic gain in (1e-3, 1-1e-3), or impulse pair with i != j, or (setting, length) of the sweep, or "
+                "(sequence, sinusoid) at which the analytic gains of A and B differ by more than 1e-3"
                 % ([list(c) for c in CUTS], list(ORDERS), list(GIBBS), list(BINS), list(PHASES), N_LONG, DT, N_SHORT, L,
                    N_ODD, list(ODD_SECOND), list(LEN_MENU), list(LEN_CONTAINERS), VARIANT_MAX_LEN,
-                   [v[0] for v in WORD_VARIANTS], [list(d) for d in DT_PAIRS]),
+                   [v[0] for v in WORD_VARIANTS], [list(d) for d in DT_PAIRS], list(CROSS), list(SEQ_REL), N_LONG,
+                   [list(e) for e in EDGE], list(EDGE_KINDS), list(EDGE_BINS), EDGE_PHASE, list(GIBBS_EXTRA)),
         'bounds': {'alphabet': SIGMA, 'max_len': L, 'cut_offs': [list(c) for c in CUTS], 'orders': ORDERS,
                    'remove_gibbs': GIBBS, 'bins': BINS, 'phases': PHASES, 'N': N_LONG, 'dt': DT,
                    'N_linearity': [N_SHORT, N_ODD], 'odd_block_second_impulse': ODD_SECOND, 'length_sweep': LEN_MENU,
                    'length_sweep_containers': LEN_CONTAINERS, 'word_variants': [v[0] for v in WORD_VARIANTS],
                    'word_variant_max_len': VARIANT_MAX_LEN, 'mismatched_dt_pairs': DT_PAIRS,
                    'widths': [1, 25], 'degrees': DEGREES,
+                   'sequence_cross_overs': CROSS, 'sequence_sinusoid_over_cutoff': SEQ_REL,
+                   'edge_cutoffs (fraction of Nyquist from the end, dt)': EDGE, 'edge_settings': EDGE_KINDS,
+                   'edge_sinusoid_bins_from_the_end': EDGE_BINS, 'gibbs_extra': (1,) + GIBBS_EXTRA,
+                   'edge_tol': 'max(1e-6, 100 x rounding noise of the transfer-function form): noise 4e-15 e^(1-order), band-pass '
+                               'with only its lower cut-off at e: 3e-16 e^(-order) (measured on the unchanged tree)',
                    'gain_tol': {'general': GAIN_TOL, 'narrow-band orders 3-4': GAIN_TOL_NARROW},
                    'linearity_tol': 'relative to peak: 1e-10; band-pass f2/f1>4: 1e-9 (order 3), 1e-7 (order 4); narrow '
                                     'band-pass: 1e-9 (order 2), 1e-6 (order 3), 1e-3 (order 4) - about 100x the rounding noise '
@@ -148,7 +194,11 @@ def build(tier, seed):
                              'lin-pair', 'lin-response-nonzero', 'lin-length-even', 'lin-length-odd',
                              'len-odd', 'len-even', 'len-power-of-two', 'len-next-to-power-of-two', 'len-additivity',
                              'len-homogeneity', 'len-container-i64', 'len-container-list', 'len-container-i16',
-                             'len-container-u8', 'len-history',
+                             'len-container-u8', 'len-history', 'len-gibbs-extra-0', 'len-gibbs-extra-2',
+                             'seq-low-then-high', 'seq-high-then-low', 'seq-band-shares-cutoff', 'seq-same-cutoff-other-dt',
+                             'seq-same-normalised-cutoff-other-dt', 'seq-nearly-equal-cutoff', 'seq-aba', 'seq-same-object', 'seq-gains-differ',
+                             'edge-cutoff-near-zero', 'edge-cutoff-near-nyquist', 'edge-cutoffs-near-both-ends',
+                             'edge-gain-transition', 'edge-gain-pass', 'edge-gain-stop', 'edge-tol-widened',
                              'detrend-variant', 'add-variant', 'runavg-variant', 'add-series-tuple', 'add-series-int',
                              'reject-dt-close', 'reject-dt-coarse', 'reject-dt-menu', 'aba-detrend', 'history-detrend',
                              'history-add', 'history-runavg',
@@ -174,6 +224,13 @@ def build(tier, seed):
                         'transformed word variants: samples w*mult+offset exactly representable in the stated type, references '
                         'exact rationals of the values passed, tolerances relative to their peak; a negative python int is not '
                         'added to the unsigned record and integer series are not added to it (the sums do not fit its type)',
+                        "kind 'seq' / 'edge': same oracle and middle third as kind 'gain'; 'edge' record lengths are chosen so that "
+                        'the slowest filter transient (pole radius from the distance of the extreme cut-off to 0 / Nyquist) has '
+                        'decayed below 1e-11 on the middle third - "much longer than the longest cut-off period" read for a '
+                        'cut-off next to Nyquist as its mirror image next to 0; tolerance widened per conditioning class of the '
+                        'transfer-function form (see bounds)',
+                        'gibbs_extra (documented int, default 1): 0 and 2 examined for length / dt / additivity only; gibbs_range '
+                        '(undocumented) is not examined',
                         'a mutator leaves the containers it was given (record, cut-offs, added series / signal) unchanged; an '
                         'object\'s earlier record, cached spectra and statistics do not influence later operations']}
 
@@ -294,7 +351,7 @@ def _setting_classes(r, c):
 _CUT = {}
 
 
-def _filter(values, dt, c, default_order=False, default_gibbs=False):
+def _filter(values, dt, c, default_order=False, default_gibbs=False, gibbs_extra=None):
     """The cut-off container is built once per pool case and the SAME object is handed to every butter_pass call of the case
     (the way a caller filters several records with one setting); it is snapshot-checked after each call (see _cut_unchanged).
     default_order / default_gibbs: the keyword is omitted (documented defaults: filter_order 4, remove_gibbs None)."""
@@ -304,6 +361,8 @@ def _filter(values, dt, c, default_order=False, default_gibbs=False):
         kw['remove_gibbs'] = c['gibbs']
     if not default_order:
         kw['filter_order'] = c['order']
+    if gibbs_extra is not None:
+        kw['gibbs_extra'] = gibbs_extra
     key = (repr(c['cut']), c['container'])
     if _CUT.get('key') != key:
         _CUT.clear()
@@ -532,10 +591,12 @@ def run_len(c):
             elif (n + 1) & n == 0 or (n - 1) & (n - 2) == 0:
                 r.cls('len-next-to-power-of-two')
 
-            def F(vals, what, claim='filter.length-dt'):
+            def F(vals, what, claim='filter.length-dt', ge=None):
                 sub = dict(base, record=what)
+                if ge is not None:
+                    sub['gibbs_extra'] = ge
                 r.states += 1
-                ok, sg = r.call(claim, sub, _filter, vals, DT, cc)
+                ok, sg = r.call(claim, sub, _filter, vals, DT, cc, False, False, ge)
                 if not ok:
                     return None
                 _cut_unchanged(r, cc)
@@ -553,6 +614,16 @@ def run_len(c):
             if fxy is not None:
                 r.expect_close('filter.linearity', dict(base, record='x+2y'), fxy, fx + 2.0 * fy, rtol=tol, atol=1e-300,
                                what='F(x+2y) vs F(x)+2F(y)')
+            # gibbs_extra (documented: "each increment of the value doubles the record length using zero padding", default 1):
+            # 0 - inside the domain, falsy, different from the default - and 2; padding is removed again: length, dt, additivity
+            for ge in (GIBBS_EXTRA if gibbs is not None else ()):
+                r.transitions += 1
+                r.cls('len-gibbs-extra-%d' % ge)
+                gx, gy = F(x, 'x', ge=ge), F(y, 'y', ge=ge)
+                gxy = F(x + 2.0 * y, 'x+2y', 'filter.linearity', ge=ge)
+                if gx is not None and gy is not None and gxy is not None:
+                    r.expect_close('filter.linearity', dict(base, record='x+2y', gibbs_extra=ge), gxy, gx + 2.0 * gy, rtol=tol,
+                                   atol=1e-300, what='F(x+2y) vs F(x)+2F(y), gibbs_extra=%d' % ge)
             for tag, m in (('x*2^-30', float(P30)), ('x*2^20', float(P20))):
                 r.transitions += 1
                 r.cls('len-homogeneity')
@@ -593,6 +664,218 @@ def run_len(c):
             if ok and _shape_ok(r, sub, sg, n, DT):
                 r.expect_close('filter.history-independent', sub, sg.values, fx, rtol=1e-12, atol=0.0,
                                what='F on an object that held and filtered another record before vs F on a fresh object')
+    return r
+
+
+# ---------------------------------------------------------------------------------------------
+# call sequences over option tuples
+# ---------------------------------------------------------------------------------------------
+def seq_settings(fc):
+    """Seven option tuples that agree in part of their arguments (they all share the order and the Gibbs option of the case): the
+    frequency fc as the cut-off of a low-pass and of a high-pass, as the upper and as the lower edge of a band-pass, the same
+    low-pass cut-off on a record with twice the time step (same frequency, other cut-off / Nyquist ratio), a high-pass at
+    fc/2 on such a record (other frequency, same cut-off / Nyquist ratio as the high-pass at fc) and a low-pass whose cut-off
+    is 0.2 % above fc (nearly the same value: the gain next to the cut-off differs by up to 4e-3, the tolerance is 1e-6).
+    fref: cut-off the sinusoid frequencies of the setting are taken relative to."""
+    top = min(4.5 * fc, 45.0)
+    return ({'name': 'low-pass (None, fc)', 'cut': [None, fc], 'container': 'tuple', 'dt': DT, 'fref': fc},
+            {'name': 'high-pass (fc, None)', 'cut': [fc, None], 'container': 'list', 'dt': DT, 'fref': fc},
+            {'name': 'band-pass (fc/5, fc)', 'cut': [fc / 5, fc], 'container': 'tuple', 'dt': DT, 'fref': fc},
+            {'name': 'band-pass (fc, %g)' % top, 'cut': [fc, top], 'container': 'ndarray', 'dt': DT, 'fref': fc},
+            {'name': 'low-pass (None, fc), 2 dt', 'cut': [None, fc], 'container': 'list', 'dt': 2 * DT, 'fref': fc},
+            {'name': 'high-pass (fc/2, None), 2 dt', 'cut': [fc / 2, None], 'container': 'tuple', 'dt': 2 * DT, 'fref': fc / 2},
+            {'name': 'low-pass (None, 1.002 fc)', 'cut': [None, round(1.002 * fc, 6)], 'container': 'tuple', 'dt': DT, 'fref': fc})
+
+
+def _sinus(n, k, ph):
+    return np.sin(np.arange(n) * (2.0 * np.pi * k / n) + ph)
+
+
+def run_seq(c):
+    """"Of the requested order and cut-offs" holds for every call, whatever was requested in earlier calls of the process.
+    Per unordered pair {A, B} of seq_settings and per sinusoid: A, B, A on fresh Signals - every result against the analytic gain of
+    the setting of THAT call (so a low-pass that follows a high-pass of the same order and frequency, and the reverse, are both
+    in the sequence), first and third result bit for bit (the same computation twice).  Per ordered pair (A, B) with a common
+    time step: A then B on the SAME object; zero phase twice, gain |H_A|^2 |H_B|^2."""
+    r = Res()
+    fc, order, gibbs = c['cross'], c['order'], c['gibbs']
+    r.cls('order-%d' % order)
+    r.cls('gibbs-%s' % gibbs)
+    S = seq_settings(fc)
+    cuts = [make_cut(st['cut'], st['container']) for st in S]      # one cut-off object per setting for the whole case
+    snaps = [_snap_cut(o) for o in cuts]
+    base = {'cross_over': fc, 'order': order, 'gibbs': gibbs, 'N': N_LONG}
+    mid = slice(N_LONG // 3, 2 * N_LONG // 3)
+    sin_cache = {}
+
+    def sinus(k):
+        if k not in sin_cache:
+            sin_cache[k] = _sinus(N_LONG, k, 1)
+        return sin_cache[k]
+
+    def apply(sig, i):
+        sig.butter_pass(cuts[i], filter_order=order, remove_gibbs=gibbs)
+        return sig
+
+    def g2(i, k):
+        st = S[i]
+        return gain2(k / (N_LONG * st['dt']), st['dt'], order, st['cut'][0], st['cut'][1])
+
+    for a in range(len(S)):
+        for b in range(a + 1, len(S)):
+            A, B = S[a], S[b]
+            kinds = {A['name'].split(' ')[0], B['name'].split(' ')[0]}
+            if a == 0 and b == 1:
+                r.cls('seq-low-then-high')
+                r.cls('seq-high-then-low')
+            elif 'band-pass' in kinds:
+                r.cls('seq-band-shares-cutoff')
+            elif A['dt'] != B['dt'] and A['cut'] == B['cut']:
+                r.cls('seq-same-cutoff-other-dt')
+            elif A['dt'] != B['dt'] and A['cut'][0] is not None and B['cut'][0] is not None:
+                r.cls('seq-same-normalised-cutoff-other-dt')
+            elif a == 0 and b == len(S) - 1:
+                r.cls('seq-nearly-equal-cutoff')
+            for rel in SEQ_REL:
+                seq = (a, b, a)
+                outs = []
+                gs = []
+                for pos, i in enumerate(seq):
+                    st = S[i]
+                    k = int(round(rel * st['fref'] * N_LONG * st['dt']))
+                    x = sinus(k)
+                    g = g2(i, k)
+                    gs.append(g)
+                    sub = dict(base, sequence=[S[j]['name'] for j in seq], position=pos, setting=st['name'], rel=rel, k=k, phase=1,
+                               calls=[[S[j]['cut'], S[j]['container'], S[j]['dt'], int(round(rel * S[j]['fref'] * N_LONG * S[j]['dt']))]
+                                      for j in seq])
+                    r.states += 1
+                    if pos:
+                        r.transitions += 1
+                    ok, sg = r.call('filter.sequence-gain', sub, lambda: apply(eqsig.Signal(x, st['dt']), i))
+                    if not ok:
+                        outs.append(None)
+                        continue
+                    _shape_ok(r, sub, sg, N_LONG, st['dt'])
+                    try:
+                        full = np.array(sg.values, copy=True)
+                        got = full[mid]
+                    except Exception:
+                        full = got = None
+                    outs.append(full)
+                    r.expect_close('filter.sequence-gain', sub, got, g * x[mid], rtol=0.0, atol=GAIN_TOL,
+                                   what='call %d of the sequence: output on the middle third vs |H|^2=%.6g (the setting of this '
+                                        'call) times input' % (pos + 1, g))
+                # the two designs differ, as digital filters, at the first record's sinusoid (same bin k: same fraction of Nyquist)
+                if abs(gs[0] - g2(b, int(round(rel * A['fref'] * N_LONG * A['dt'])))) > 1e-3:
+                    r.nontrivial += 1
+                    r.cls('seq-gains-differ')
+                r.cls('seq-aba')
+                if outs[0] is not None and outs[2] is not None:
+                    sub = dict(base, sequence=[S[j]['name'] for j in seq], setting=A['name'], rel=rel)
+                    r.expect('filter.history-independent', sub, bits_equal(outs[0], outs[2]),
+                             'the same call on the same record gives a different result after a call with the other setting',
+                             observed=outs[2], expected=outs[0])
+            if A['dt'] != B['dt']:
+                continue
+            for i, j in ((a, b), (b, a)):
+                for rel in SEQ_REL:
+                    st = S[i]
+                    k = int(round(rel * st['fref'] * N_LONG * st['dt']))
+                    x = sinus(k)
+                    g = g2(i, k) * g2(j, k)
+                    sub = dict(base, same_object=[S[i]['name'], S[j]['name']], k=k, phase=1,
+                               calls=[[S[q]['cut'], S[q]['container'], S[q]['dt']] for q in (i, j)])
+                    r.states += 1
+                    r.transitions += 1
+                    r.cls('seq-same-object')
+                    ok, sg = r.call('filter.composition-gain', sub, lambda: apply(apply(eqsig.Signal(x, st['dt']), i), j))
+                    if not ok:
+                        continue
+                    _shape_ok(r, sub, sg, N_LONG, st['dt'])
+                    try:
+                        got = np.array(sg.values, copy=True)[mid]
+                    except Exception:
+                        got = None
+                    r.expect_close('filter.composition-gain', sub, got, g * x[mid], rtol=0.0, atol=GAIN_TOL,
+                                   what='two filters applied to one object: output on the middle third vs the product of the two '
+                                        'analytic gains %.6g times input' % g)
+    for st, o, sn in zip(S, cuts, snaps):
+        r.expect('filter.cutoff-unchanged', dict(base, setting=st['name']), _snap_cut(o) == sn,
+                 "butter_pass modified the caller's cut-off container: now %r" % (o,))
+    return r
+
+
+# ---------------------------------------------------------------------------------------------
+# cut-offs next to the ends of the admissible interval
+# ---------------------------------------------------------------------------------------------
+def edge_setting(kind, e, dt):
+    """(cut-offs, container, ends next to which sinusoids are placed) - cut-offs as decimals of at most 9 digits"""
+    nyq = 0.5 / dt
+    lo, hi, inner = round(e * nyq, 9), round((1.0 - e) * nyq, 9), round(0.2 * nyq, 9)
+    return {'low, cut-off near 0': ([None, lo], 'tuple', ('zero',)),
+            'high, cut-off near 0': ([lo, None], 'list', ('zero',)),
+            'band, lower cut-off near 0': ([lo, inner], 'ndarray', ('zero',)),
+            'low, cut-off near Nyquist': ([None, hi], 'list', ('nyquist',)),
+            'high, cut-off near Nyquist': ([hi, None], 'tuple', ('nyquist',)),
+            'band, upper cut-off near Nyquist': ([inner, hi], 'list', ('nyquist',)),
+            'band, cut-offs near 0 and near Nyquist': ([lo, hi], 'tuple', ('zero', 'nyquist'))}[kind]
+
+
+def edge_tol(kind, e, order):
+    """Rounding noise of scipy's transfer-function form with a cluster of `order` poles at distance ~e from z = 1 / z = -1, as
+    measured on the unchanged tree (worst case over the menu, all within a factor ~20 of the formula); tolerance = 100 x."""
+    noise = 3e-16 * e ** (-order) if kind == 'band, lower cut-off near 0' else 4e-15 * e ** (1 - order)
+    return max(GAIN_TOL, 100.0 * noise)
+
+
+def run_edge(c):
+    """"Scaled by |H(f)|^2 of the requested order and cut-offs" for the smallest and the largest admissible cut-offs: the gain
+    is the one of the cut-off actually passed (0.992 ... 0.999 of the Nyquist frequency is not 0.99 of it, 0.001 is not 0.01),
+    examined where that matters - sinusoids on both sides of the extreme cut-off, within a factor two of its distance from the
+    end of the interval - plus one sinusoid in the middle of the spectrum."""
+    r = Res()
+    (e, dt), kind, order = c['edge'], c['setting'], c['order']
+    n = int(round(65.536 / e))
+    cut, cont, ends = edge_setting(kind, e, dt)
+    r.cls('order-%d' % order)
+    r.cls('edge-cutoffs-near-both-ends' if len(ends) == 2 else 'edge-cutoff-near-zero' if ends[0] == 'zero' else 'edge-cutoff-near-nyquist')
+    tol = edge_tol(kind, e, order)
+    if tol > GAIN_TOL:
+        r.cls('edge-tol-widened')
+    obj = make_cut(cut, cont)
+    snap = _snap_cut(obj)
+    ks = [n // 4]
+    for end in ends:
+        ks += [m if end == 'zero' else n // 2 - m for m in EDGE_BINS]
+    mid = slice(n // 3, 2 * n // 3)
+    base = {'edge': e, 'dt': dt, 'N': n, 'setting': kind, 'cut': cut, 'container': cont, 'order': order}
+    for k in sorted(ks):
+        x = _sinus(n, k, EDGE_PHASE)
+        g = gain2(k / (n * dt), dt, order, cut[0], cut[1])
+        if 1e-3 < g < 1 - 1e-3:
+            r.nontrivial += 1
+        r.cls('edge-gain-pass' if g > 0.9 else ('edge-gain-stop' if g < 0.1 else 'edge-gain-transition'))
+        for gibbs in GIBBS:
+            sub = dict(base, gibbs=gibbs, k=k, phase=EDGE_PHASE)
+            r.states += 1
+            r.cls('gibbs-%s' % gibbs)
+
+            def go():
+                sg = eqsig.Signal(x, dt)
+                sg.butter_pass(obj, filter_order=order, remove_gibbs=gibbs)
+                return sg
+            ok, sg = r.call('filter.gain-phase', sub, go)
+            if not ok:
+                continue
+            _shape_ok(r, sub, sg, n, dt)
+            try:
+                got = np.array(sg.values, copy=True)[mid]
+            except Exception:
+                got = None
+            r.expect_close('filter.gain-phase', sub, got, g * x[mid], rtol=0.0, atol=tol,
+                           what='output on the middle third vs |H|^2=%.6g (cut-offs %r, Nyquist %g) times input' % (g, cut, 0.5 / dt))
+    r.expect('filter.cutoff-unchanged', base, _snap_cut(obj) == snap, "butter_pass modified the caller's cut-off container: now %r" % (obj,))
     return r
 
 
@@ -987,12 +1270,32 @@ def run_case(c):
         return run_lin(c)
     if c['kind'] == 'len':
         return run_len(c)
+    if c['kind'] == 'seq':
+        return run_seq(c)
+    if c['kind'] == 'edge':
+        return run_edge(c)
     return run_word(c)
 
 
 def snippet(case, v):
     sub = v.get('sub') or {}
     head = "import numpy as np, eqsig\nfrom eqsig.fns import generic\nsub = %r\n" % (sub,)
+    if case.get('kind') in ('seq', 'edge'):
+        return head + (
+            "mk = lambda cut, cont: tuple(cut) if cont == 'tuple' else list(cut) if cont == 'list' else np.array(cut, float)\n"
+            "N = sub['N']; kw = dict(filter_order=sub['order'], remove_gibbs=sub.get('gibbs'))\n"
+            "x = lambda k: np.sin(np.arange(N) * (2 * np.pi * k / N) + 1)\n"
+            "if 'same_object' in sub:      # two filters on one object: expected gain = product of the two analytic gains\n"
+            "    s = eqsig.Signal(x(sub['k']), sub['calls'][0][2])\n"
+            "    for cut, cont, dt in sub['calls']: s.butter_pass(mk(cut, cont), **kw)\n"
+            "    print(s.npts, s.dt, (s.values / x(sub['k']))[N // 3:N // 3 + 4])\n"
+            "elif 'calls' in sub:          # A, B, A on fresh objects; sinusoid of each call: bin k (rel x its own cut-off), on its own dt\n"
+            "    for cut, cont, dt, k in sub['calls']:\n"
+            "        s = eqsig.Signal(x(k), dt); s.butter_pass(mk(cut, cont), **kw)\n"
+            "        print(cut, dt, k, s.npts, s.dt, 'gain on the middle third:', (s.values / x(k))[N // 3:N // 3 + 4])\n"
+            "else:                         # cut-off next to 0 / Nyquist\n"
+            "    s = eqsig.Signal(x(sub['k']), sub['dt']); s.butter_pass(mk(sub['cut'], sub['container']), **kw)\n"
+            "    print(s.npts, s.dt, 'gain on the middle third:', (s.values / x(sub['k']))[N // 3:N // 3 + 4])\n")
     if case.get('kind') in ('gain', 'lin', 'len'):
         return head + (
             "cut = sub['cut']; cont = sub['container']\n"
@@ -1007,6 +1310,7 @@ def snippet(case, v):
             "s = eqsig.Signal(x, dt)\n"
             "kw = {} if sub.get('order_arg') else {'filter_order': sub['order']}\n"
             "if not sub.get('gibbs_arg'): kw['remove_gibbs'] = sub['gibbs']\n"
+            "if 'gibbs_extra' in sub: kw['gibbs_extra'] = sub['gibbs_extra']\n"
             "if sub.get('order_arg') and sub.get('when') != 'first':   # preceded by an explicit call on another record\n"
             "    eqsig.Signal(x, dt).butter_pass(cut, filter_order=sub['order'], remove_gibbs=sub['gibbs'])\n"
             "s.butter_pass(cut, **kw)\n"
